@@ -5,10 +5,12 @@
 // SANITIZE: none   (the address-space limit below is incompatible with ASan; _GLIBCXX_ASSERTIONS still traps out-of-range accesses)
 // SOURCES: Bpp/Exceptions.cpp Bpp/Text/TextTools.cpp Bpp/Text/StringTokenizer.cpp Bpp/Text/NestedStringTokenizer.cpp Bpp/Io/FileTools.cpp
 #include <Bpp/Text/StringTokenizer.h>
+#include <Bpp/Text/NestedStringTokenizer.h>
 #include <Bpp/Text/TextTools.h>
 #include <Bpp/Io/FileTools.h>
 #include "adapters/args.h"
 #include <sys/resource.h>
+#include <cstring>
 using namespace bpp; using namespace std;
 int main(int argc, char** argv) {
   Args a(argc, argv); string fn = a.s("fn");
@@ -20,6 +22,14 @@ int main(int argc, char** argv) {
       cout << "StringTokenizer(\"" << s << "\", \"" << delim << "\", solid=" << solid << ", allowEmptyTokens=" << allowEmpty << ")" << endl;
       StringTokenizer st(s, delim, solid, allowEmpty);
       cout << "returned with " << st.numberOfRemainingTokens() << " tokens" << endl;
+    } else if (fn == "NestedStringTokenizer__ctor_5") {
+      size_t ns = a.u("verif_in_s_n"), nd = a.u("verif_in_delimiters_n"), no = a.u("verif_in_open_n"), ne = a.u("verif_in_end_n"); bool solid = a.has("solid") ? a.b("solid") : true;
+      // shapes tried: plain text, text with a balanced block, text with an unclosed block
+      string delim(nd, ','), open(no, '('), end(ne, ')'); const char* pats[3] = {"a,", "(a,)", "(a,"};
+      for (int k = 0; k < 3; ++k) { string s; for (size_t i = 0; i < ns; ++i) s += pats[k][i % strlen(pats[k])];
+        cout << "NestedStringTokenizer(\"" << s << "\", \"" << open << "\", \"" << end << "\", \"" << delim << "\", solid=" << solid << ")" << endl;
+        try { NestedStringTokenizer st(s, open, end, delim, solid); cout << "returned with " << st.numberOfRemainingTokens() << " tokens" << endl; }
+        catch (bpp::Exception& e) { cout << "bpp::Exception: " << e.what() << endl; } }
     } else if (fn == "StringTokenizer__unparseRemainingTokens") {
       size_t nt = a.u("verif_in_self_tokens_n");
       if (nt != 0) { cout << "native replay only covers the empty tokenizer\n"; return 3; }
